@@ -4,6 +4,9 @@ import PcfgVerif.Drive.Expand
 import PcfgVerif.Drive.Loader
 import PcfgVerif.Drive.Sampler
 import PcfgVerif.Drive.EditRules
+import PcfgVerif.Drive.Reader
+import PcfgVerif.Drive.Probs
+import PcfgVerif.Drive.OmenTrainer
 /-! Line-protocol driver: one operation per input line, one canonical answer line each. -/
 
 structure DState where
@@ -13,6 +16,8 @@ structure DState where
   ld : Drive.Loader.St := {}
   hw : Drive.Sampler.St := {}
   er : Drive.EditRules.St := {}
+  rd : Drive.Reader.St := {}
+  ot : Drive.OmenTrainer.St := {}
 
 def dispatch (s : DState) (line : String) : DState × String :=
   let toks := (line.splitOn " ").filter (· ≠ "")
@@ -37,6 +42,13 @@ def dispatch (s : DState) (line : String) : DState × String :=
     else if cmd.startsWith "er." then
       let (p, out) := Drive.EditRules.step s.er toks
       ({ s with er := p }, out)
+    else if cmd.startsWith "rd." then
+      let (p, out) := Drive.Reader.step s.rd toks
+      ({ s with rd := p }, out)
+    else if cmd.startsWith "cp." then (s, Drive.Probs.step toks)
+    else if cmd.startsWith "ot." then
+      let (p, out) := Drive.OmenTrainer.step s.ot toks
+      ({ s with ot := p }, out)
     else (s, "bad-op")
 
 partial def loop (h : IO.FS.Stream) (out : IO.FS.Stream) (s : DState) : IO Unit := do
